@@ -811,6 +811,67 @@ Example dn_example :
   agree_dn good = true /\ agree_dn (firstn 33 good ++ [8] ++ skipn 34 good) = false /\ agree_dn (firstn 50 good) = false.
 Proof. vm_compute. repeat split. Qed.
 
+(* ---- the metadata of the closure (leading digit 12): histories of selections, use_dynamic_dispatch, captures of the
+   closure of ONE function (context / outer) through the import-time binding or the manager module, and calls of
+   f.__wrapped__ / of f itself.  digits: tenalg, nthreads, main_holds, nsteps (two digits), then per step kind (0 set, 1 enter,
+   2 exit, 3 use_dynamic_dispatch, 4 capture, 5 captured.__wrapped__(), 6 <route>.__wrapped__(), 7 <route>()), thread, a, b, c,
+   outcome kind, value (as for leading digit 6); a = through the import-time binding? (kinds 4, 6, 7) / index (kind 5) *)
+Definition dec_wop (k t a b c : nat) : wop :=
+  match k with
+  | 0 => WSel (Set_ t (dec_sel a b) (dec_bool c))
+  | 1 => WSel (Enter t (dec_sel a b) (dec_bool c))
+  | 2 => WSel (Exit_ t (dec_bool a))
+  | 3 => WDynamic t
+  | 4 => WCapture t (dec_bool a)
+  | 5 => WUnwrapCap t a
+  | 6 => WUnwrap t (dec_bool a)
+  | _ => WCall t (dec_bool a)
+  end.
+
+Fixpoint dec_wsteps (n : nat) (l : list nat) : option (list (wop * nat * nat)) :=
+  match n with
+  | O => match l with [] => Some [] | _ => None end
+  | S n' => match l with
+            | k :: t :: a :: b :: c :: ok :: ov :: l' =>
+                match dec_wsteps n' l' with Some es => Some ((dec_wop k t a b c, ok, ov) :: es) | None => None end
+            | _ => None
+            end
+  end.
+
+Definition wobs_ok (tenalg : bool) (model : wobs) (kind tok : nat) : bool :=
+  match model, kind with
+  | WSelObs o, 0 => obs_eqb o (dec_out tok)
+  | WNone, 1 => true
+  | WRan b, 2 => tok_ok tenalg b tok
+  | WErr, 4 => true
+  | _, _ => false
+  end.
+
+Fixpoint wcheck (tenalg : bool) (x : wst) (es : list (wop * nat * nat)) : bool :=
+  match es with
+  | [] => true
+  | (o, ok, ov) :: es' =>
+      let (x', ob) := wstep fixed_rules (cfg_of tenalg) x o in wobs_ok tenalg ob ok ov && wcheck tenalg x' es'
+  end.
+
+Definition agree_w (l : list nat) : bool :=
+  match l with
+  | ta :: nth :: own :: nhi :: nlo :: r =>
+      match dec_wsteps (nhi * 64 + nlo) r with
+      | Some es => wcheck (dec_bool ta) (winit (own_of (if dec_bool own then [(0, Named 0)] else []))) es
+      | None => false
+      end
+  | _ => false
+  end.
+
+(* thread 1 selects harness instance 1: the call follows, __wrapped__ stays with the import-time backend; after
+   use_dynamic_dispatch by thread 1 the class closure is re-made with Obj 1, the import-time binding is not *)
+Example w_example :
+  let good := [0;3;1; 0;7;
+               0;1;1;1;1; 0;0;   7;1;0;0;0; 2;9;   6;1;0;0;0; 2;0;   3;1;0;0;0; 1;0;   6;2;0;0;0; 2;9;   6;2;1;0;0; 2;2;   7;2;1;0;0; 2;2] in
+  agree_w good = true /\ agree_w (firstn 25 good ++ [9] ++ skipn 26 good) = false.
+Proof. vm_compute. repeat split. Qed.
+
 Definition agree (c : case) : bool :=
   match digits (snd c) with
   | 3 :: l => match decode_m l with Some m => agree_m m | None => false end
@@ -822,6 +883,7 @@ Definition agree (c : case) : bool :=
   | 9 :: l => agree_rebind l
   | 10 :: l => agree_reg l
   | 11 :: l => agree_dn l
+  | 12 :: l => agree_w l
   | _ => agree_hist (snd c)
   end.
 
